@@ -197,6 +197,15 @@ class Ctx:
             for e in analysis_errors:
                 out_lines.append(f'ANALYSIS-ERROR property={self.prop} {e}')
             rc = rc or 2
+        if self.tier == 'thorough' and not os.environ.get('SA_NO_EVIDENCE'):
+            try:
+                errs = self._thorough_extras()
+            except Exception as exc:         # never silently
+                errs = [f'thorough extras failed: {exc!r}']
+            for e in errs:
+                out_lines.append(f'ANALYSIS-ERROR property={self.prop} {e}')
+                analysis_errors.append(e)
+                rc = rc or 2
         wall = time.time() - self.t0
         summary = (f'{self.prop} [{self.tier}] rules={len(self.rules)} '
                    f'instances={total} discharged={ok} undecided={undec} '
@@ -209,6 +218,64 @@ class Ctx:
                                  len(seen_v), len(nontrivial), wall,
                                  analysis_errors)
         return rc
+
+    def _thorough_extras(self) -> list[str]:
+        """(c) engine self-check: dominators vs removal-based brute force on
+        every function of the consulted modules; (d) checker validation by
+        program variants of the current tree (recorded, never changes the
+        exit code)."""
+        from .cfg import CFG
+        errors: list[str] = []
+        checked = mismatches = 0
+        for rel in sorted(self.proj.consulted):
+            m = self.proj.modules.get(rel)
+            if m is None:
+                continue
+            for f in m.funcs.values():
+                try:
+                    cfg = CFG(f.node)
+                except Exception as exc:
+                    errors.append(f'CFG construction failed for {f.fq}: '
+                                  f'{exc!r}')
+                    continue
+                live = cfg.live()
+                branchy = sum(1 for n in live if len(n.succ) > 1)
+                if branchy > 12 or len(live) > 120:
+                    continue
+                dom = cfg.dominators()
+                checked += 1
+                for n in live:
+                    for d in live:
+                        if d is n:
+                            continue
+                        brute = n not in (cfg.reach(
+                            [cfg.entry], avoid=[d], labels=frozenset('ntfex'),
+                            first_labels=frozenset('ntfex')) | {cfg.entry}) \
+                            if d is not cfg.entry else True
+                        if (d in dom[n]) != brute:
+                            mismatches += 1
+        if mismatches:
+            errors.append(f'engine self-check: {mismatches} dominator '
+                          f'disagreements with brute force')
+        self.extra_coverage['engine_selfcheck'] = {
+            'functions_checked': checked, 'disagreements': mismatches}
+        # (d) variants
+        from .selftest import load_variants, run_variant
+        from concurrent.futures import ThreadPoolExecutor
+        vs = [v for v in load_variants() if v['prop'] == self.prop]
+        with ThreadPoolExecutor(int(os.environ.get('SA_JOBS', '16'))) as ex:
+            res = list(ex.map(lambda v: run_variant(v, self.proj.root), vs))
+        tally: dict[str, int] = {}
+        for r in res:
+            k = f"{r['expect']}:{r['status']}"
+            tally[k] = tally.get(k, 0) + 1
+        self.extra_coverage['variants'] = {
+            'total': len(res), 'tally': tally,
+            'failed': [r['id'] for r in res if r['status'] == 'FAIL'],
+            'note': 'must-fire variants break one armed instance on a '
+                    'scratch copy of the current tree; twins are '
+                    'behaviour-preserving rewrites that must stay silent'}
+        return errors
 
     def _write_evidence(self, total, ok, undec, nknown, nviol, nontrivial,
                         wall, errors) -> None:
